@@ -182,7 +182,7 @@ def stepped_cases(seed, tier, base=3000):
     pl = stepped_placements()
     engines = ["memkv", "tikv"] if tier == "quick" else ENGINES
     cases = [gen_stepped(seed, base + i, engines[i % len(engines)], p) for i, p in enumerate(pl)]
-    n_rand = 12 if tier == "quick" else 300
+    n_rand = 12 if tier == "quick" else 900
     cases += [gen_stepped(seed, base + 500 + i, ENGINES[i % 3]) for i in range(n_rand)]
     return cases, len(pl)
 
@@ -246,7 +246,7 @@ def check(rep, tier, seed):
     pl = placements()
     for i, p in enumerate(pl):
         cases.append(gen_case(seed, i, ENGINES[i % 3] if tier != "quick" else ["memkv", "tikv"][i % 2], p))
-    n_rand = 18 if tier == "quick" else 600
+    n_rand = 18 if tier == "quick" else 3000
     for i in range(n_rand):
         cases.append(gen_case(seed, 1000 + i, ENGINES[i % 3]))
     scases, n_spl = stepped_cases(seed, tier)
